@@ -447,7 +447,7 @@ def prop_ridge(case, stats):
         x = UTPM.init_tensor(d, arg)
         u = None
         for i in range(N):
-            t = float(a[i]) * x[i]
+            t = x[i] if a[i] == 1.0 else float(a[i]) * x[i]     # a_i = 1: the traced value keeps the dtype of the data
             u = t if u is None else u + t
         return UTPM.extract_tensor(N, g_ad(u), as_full_matrix=False)
     vec = np.asarray(guard(run), dtype=float)
